@@ -330,6 +330,9 @@ def event_counts_case(apply_filters, have_counts):
                     k = c.ctx.fresh_int('k!sk')
                     yield 'count k is the event count of catalog k with the configured filters applied', z3.Implies(
                         z3.And(0 <= k, k < _J), to_z3(r.f((k,))) == EC(key(k)))
+            f = self.fields
+            yield 'the forecast is left at the start of a pass over the same catalogs (cursor 0, collection and filter switch untouched)', z3.And(
+                to_z3(f['_idx']) == 0, to_z3(f['n_cat']) == _J, z3.BoolVal(isinstance(f.get('catalogs'), SymList) and f.get('apply_filters') is apply_filters))
     GEC.__name__ = 'GEC_%s_%s' % (apply_filters, have_counts)
     return GEC
 
@@ -410,6 +413,8 @@ def expected_rates_case(apply_filters, generator=None):
                 yield 'expected rate of bin (a,b) == mean over the catalogs of their space-magnitude counts', z3.Implies(
                     z3.And(0 <= a, a < n0, 0 <= b, b < n1), to_real(d.f((a, b))) * z3.ToReal(_J) == tot)
                 yield 'the forecast is not rescaled', z3.BoolVal(r.fields.get('_scale') == 1)
+            f = self.fields
+            yield 'the forecast is left at the start of a pass (cursor 0, number of catalogs known)', z3.And(to_z3(f['_idx']) == 0, to_z3(f['n_cat']) == _J)
 
         def raises(c, exc, self, verbose, _J, _shape):
             return None
